@@ -335,6 +335,14 @@ func c13(r *Report, s *Sem) {
 		r.Check(R5, "func "+fnName(c.Parent())+" / session send under the send mutex", p.instrPos(c), ok, fmt.Sprintf("locks held: %v — FinishSession/FailSession concurrent with a data send from another goroutine are otherwise two writers on one connection", hl))
 	}
 
+	R8 := r.Rule("R8", "the observing side moves to the terminal state: the client's receiver folds a received session's state into the channel", 1)
+	checkClientFoldsTerminal(r, s, R8)
+	R9 := r.Rule("R9", "the session stream has constant capacity ≥ 1, so the receiver's hand-off of a session envelope never waits for a reader and the receiver always exits", 1)
+	checkSessionStreamCapacity(r, s, R9)
+
+	R10 := r.Rule("R10", "the connection is really closed by the terminating/closing calls: Transport.Close implementations close the underlying connection unless the handle is nil, and channel.Close always reaches Transport.Close", 3)
+	checkCloseReallyCloses(r, s, R10)
+
 	// ---- R7
 	reach := p.reachable(a.receiver)
 	r.Check(R7, "receiver goroutine / cannot reach the stop-and-wait routine", p.pos(a.receiver.Pos()), !reach[a.stopFn], "the receiver may only use the lock-only setter")
